@@ -5,6 +5,7 @@ import (
 	"fmt"
 	"math/rand/v2"
 	"strings"
+	"unicode/utf8"
 
 	"golang.org/x/mod/modfile"
 
@@ -171,16 +172,57 @@ func (k *c20Run) outcome(fn string, resultNil bool, err error) (accepted bool) {
 		if i == 0 {
 			c.Class("err:" + fn + ":" + c20ErrKind(msg))
 		}
+		anchor := c20LexAnchor(msg)
 		if e.Pos == (modfile.Position{}) {
+			if anchor != "" {
+				// the lexer's complaints are about a place in the input; they always come with one
+				k.viol("lexer-error-without-position", map[string]any{"fn": fn, "err": e.Error()})
+				continue
+			}
 			c.Class("errpos:absent:" + fn) // an Error without position is documented (Error.Error prints none)
 			continue
 		}
-		k.pos(k.ecur, c20ErrWhere{fn, i, e}, e.Pos)
+		if k.pos(k.ecur, c20ErrWhere{fn, i, e}, e.Pos) && anchor != "" {
+			// "... and point at the token or comment they describe": what the message names is at that offset
+			rest := k.in[min(e.Pos.Byte, len(k.in)):]
+			ok := true
+			switch anchor {
+			case "block-comment":
+				ok = bytes.HasPrefix(rest, []byte("/*"))
+			case "newline":
+				ok = len(rest) > 0 && rest[0] == '\n'
+			case "string-start": // the unterminated string is reported where it begins
+				ok = len(rest) > 0 && (rest[0] == '"' || rest[0] == '`')
+			case "character":
+				rn, _ := utf8.DecodeRune(rest)
+				ok = len(rest) > 0 && strings.HasSuffix(msg, fmt.Sprintf("%#q", rn))
+			}
+			if !ok {
+				k.viol("error-position-not-at-what-it-describes", map[string]any{"fn": fn, "err": e.Error(), "byte": e.Pos.Byte, "text_there": c02Trunc(rest[:min(len(rest), 12)])})
+			} else {
+				c.Class("errpos:anchored:" + anchor)
+			}
+		}
 	}
 	if len(el) > 1 {
 		c.Class(fn + ":many-errors")
 	}
 	return false
+}
+
+// c20LexAnchor names what a lexer message is about ("" for every other message).
+func c20LexAnchor(msg string) string {
+	switch {
+	case strings.HasPrefix(msg, "mod files must use // comments"):
+		return "block-comment"
+	case msg == "unexpected newline in string":
+		return "newline"
+	case msg == "unexpected EOF in string":
+		return "string-start"
+	case strings.HasPrefix(msg, "unexpected input character "):
+		return "character"
+	}
+	return ""
 }
 
 func (k *c20Run) comments(where c20Where, cs []modfile.Comment) {
